@@ -7,7 +7,7 @@ mirrors pywbem/_cim_obj.py: CIMInstanceName.to_wbem_uri, CIMClassName.to_wbem_ur
   WBEM_URI_CLASSPATH_REGEXP, WBEM_URI_INSTANCEPATH_REGEXP, WBEM_URI_KEYBINDINGS_REGEXP,
   WBEM_URI_KB_FINDALL_REGEXP (hand-written recognisers, see `parseHead`, `scanVal`, `scanAssigns`)
 mirrors pywbem/_utils.py: _integerValue_to_int, _realValue_to_float (BINARY/OCTAL/DECIMAL/HEX/REAL_VALUE)
-mirrors pywbem/_cim_types.py: CIMDateTime.__init__ for strings, only as the *recogniser* `dtAccepts`
+mirrors pywbem/_cim_types.py: CIMDateTime.__init__ for strings (after the C06 fixes: `[0-9]`, `[+-]`, `\Z`), only as the *recogniser* `dtAccepts`
   (does the constructor raise ValueError or not); the value itself is C06's business.
 mirrors pywbem/_cim_http.py: get_cimobject_header (= format `cimobject`)
 
@@ -299,7 +299,7 @@ def realLitCore (s : Str) : Bool :=
 
 def realLit (s : Str) : Bool := realLitCore (chomp s)
 
-/-! ## parsing: CIMDateTime(str) as a recogniser (ASCII digits only) -/
+/-! ## parsing: CIMDateTime(str) as a recogniser (the patterns use `[0-9]`, sign `[+-]`, and are anchored with `\Z`) -/
 
 def isDigStar (c : Char) : Bool := isDigit c || c == '*'
 
@@ -329,15 +329,16 @@ def starsOk (s : Str) : Bool :=
 
 /-- does `CIMDateTime(s)` succeed (True) or raise ValueError (False) -/
 def dtAccepts (s : Str) : Bool :=
-  let p := s.take 25
-  if p.length < 25 then false else
+  let p := s
+  -- both patterns end in `\Z`: exactly 25 characters, nothing may follow
+  if p.length ≠ 25 then false else
   let d1 := p.take 14
   let dot := (p.drop 14).take 1
   let us := (p.drop 15).take 6
   let sg := (p.drop 21).take 1
   let off := p.drop 22
   if !(d1.all isDigStar && dot == ['.'] && us.all isDigStar) then false else
-  if (sg == ['+'] || sg == ['-'] || sg == ['|']) && off.all isDigit then
+  if (sg == ['+'] || sg == ['-']) && off.all isDigit then
     -- timestamp
     starsOk s && microOk us &&
     (match fieldVal 0 (d1.take 4), fieldVal 1 ((d1.drop 4).take 2), fieldVal 1 ((d1.drop 6).take 2),
